@@ -541,8 +541,8 @@ func TestVerifC31(t *testing.T) {
 	r.Assumption("single non-clustered node, one non-reentrant grain identity; hooks overlap only at the gated hook of the scenario (no instruction-level interleaving inside the engine)")
 	r.Assumption("the hooks ignore their context: an OnActivate held longer than the init timeout still completes")
 	cfgs := []c31Cfg{
-		{name: "gate-none", gateOn: "", sends: 3, pills: 2, advT: 1, adv2m: 1},
 		{name: "gate-activate", gateOn: "act", sends: vsched.Pick(2, 3), pills: 1, advT: 1, adv2m: vsched.Pick(0, 1)},
+		{name: "gate-none", gateOn: "", sends: 3, pills: 2, advT: 1, adv2m: 1},
 		{name: "gate-receive", gateOn: "recv", sends: 3, pills: vsched.Pick(1, 2), advT: 1, adv2m: vsched.Pick(0, 1)},
 		{name: "gate-deactivate", gateOn: "deact", sends: vsched.Pick(2, 3), pills: 2, advT: 1, adv2m: vsched.Pick(0, 1)},
 	}
@@ -554,5 +554,10 @@ func TestVerifC31(t *testing.T) {
 			Run: func(c *vsched.Chooser) vsched.Outcome { return c31Run(t, cfg, c) },
 		})
 	}
-	vsched.ExploreAll(scs)
+	// Not ExploreAll: its equal per-scenario share of the wall budget starves the first scenario when
+	// the shard processes start on a busy machine; the scenarios here are small compared with the budget,
+	// so they simply run one after the other against the global budget (cheap ones first).
+	for _, sc := range scs {
+		vsched.Explore(sc.Cfg, sc.Run)
+	}
 }
